@@ -17,8 +17,11 @@ Driver handler for C20.  Case kinds (see harness/run/c20.go):
   rdbad <arr|obj> <dochex>                 hand-made (malformed or foreign) document
   lazy <alone|field> <v:hex|empty|err|nullv|raw:hex>
       obs: m=<hex|err|-> um=<ok|err|-> opt=<some:hex|none|err|panic|-> get=<ok:hex|empty|err|panic|->
-  file <fwd|rev> <lf|crlf> <nl|nonl> <runs>  runs := "-" | L<len>[x<count>] …   (line i = content(i,len))
-  raw <fwd|rev> <hex|->                      small file given literally
+  file <fwd|rev> <lf|crlf>[:cr<p>] <nl|nonl> <runs>  runs := "-" | L<len>[x<count>] …   (line i = content(i,len));
+                                             `:cr<p>` (p = 1…15) sprinkles lone carriage returns into the line contents:
+                                             line i gets the pattern q = (p + 5 i) mod 16 — bit 0: first byte, bit 1: last
+                                             byte, bit 2: last but one, bit 3: every byte j with j mod 53 = 17 (`crAt`)
+  raw <fwd|rev> <hex|->                      small file given literally (any bytes, stray '\r' included)
   missing <fwd|rev>
       obs: ok n=<n> stable=<0|1> <tok>… | ok n=<n> stable=<0|1> all=<digest> | err toolong | err <class>
            tok := h<hex> (≤ 16 bytes) | d<len>:<fnv1a-64 hex>
@@ -121,7 +124,11 @@ def handleArr (helper : String) (initOk : Bool) (elems : List (Option Bytes)) (o
     let wantInit := if helper == "wi" then "1" else "-"
     let want := s!"out={wantOut} init={wantInit} werr=nil back=ok:{hexList es}"
     (model, obs == want, if obs == want then "" else s!"want {want}")
-  else (model, true, "n/a: failing init hook or unmarshalable element")
+  else
+    -- an element that cannot be marshalled / a failing init hook: the writer (or the reader handed to the consumer) must
+    -- end with an ERROR — a clean end would present the truncated text as the complete document
+    let clean := (obs.splitOn " werr=nil").length > 1
+    (model, !clean, if clean then "a failed stream ended without an error: the truncated text looks like a complete document" else "")
 
 def parseEntries (s : String) : Option (List (Bytes × Bytes)) :=
   if s == "-" then some []
@@ -200,6 +207,24 @@ def contentByte (idx j : Nat) : UInt8 := UInt8.ofNat (97 + (idx * 7 + j * 3 + j 
 
 def lineContent (idx len : Nat) : Bytes := (List.range len).map (contentByte idx)
 
+/-- is byte `j` of line `idx` (of `len` bytes) a lone carriage return under pattern `p`?  (`p = 0`: never) -/
+def crAt (p idx len j : Nat) : Bool :=
+  let q := if p == 0 then 0 else (p + 5 * idx) % 16
+  (q % 2 == 1 && j == 0) || (q / 2 % 2 == 1 && j + 1 == len) || (q / 4 % 2 == 1 && j + 2 == len) ||
+    (q / 8 % 2 == 1 && j % 53 == 17)
+
+def lineContentCR (p idx len : Nat) : Bytes :=
+  (List.range len).map (fun j => if crAt p idx len j then FileScan.CR else contentByte idx j)
+
+/-- "lf" | "crlf" | "lf:cr5" | "crlf:cr12" → (crlf, p) -/
+def parseEol (t : String) : Option (Bool × Nat) :=
+  match t.splitOn ":" with
+  | [e] => if e == "lf" then some (false, 0) else if e == "crlf" then some (true, 0) else none
+  | [e, c] =>
+    if !(e == "lf" || e == "crlf") || !c.startsWith "cr" then none
+    else ((c.drop 2).toString.toNat?).bind (fun p => if 1 ≤ p && p ≤ 15 then some (e == "crlf", p) else none)
+  | _ => none
+
 /-- "L4096x3" → [4096,4096,4096] -/
 def parseRun (t : String) : Option (List Nat) :=
   if !t.startsWith "L" then none
@@ -227,8 +252,9 @@ def resStr (r : List Bytes × Option FileScan.ScanErr) : String :=
 def runModel (rev : Bool) (f : Bytes) : String :=
   resStr (if rev then FileScan.reverseScan realBuf realMax f else FileScan.forwardScan realMax f)
 
-/-- Verdict for a file case. `lines` = the file's lines (independent of any scanning), `rawMax` = the longest
-raw line (with its '\r'), `startsNL` = the file starts with '\n'.
+/-- Verdict for a file case. `lines` = the file's lines (independent of any scanning: each line without its '\n' and
+without at most ONE '\r' in front of it — the same expectation for BOTH directions since the repair 4d4d438 of the
+reverse scanner), `rawMax` = the longest raw line (with its '\r'), `startsNL` = the file starts with '\n'.
 Known findings are matched by input class AND failure shape:
   F2: the observation is `err toolong` and (forward) some raw line ≥ 65536 = bufio.MaxScanTokenSize, (reverse) some raw
       line + 1 ≥ 32768 = maxTokenSize/2 (below that `C20_reverse_lines` guarantees success);
@@ -251,26 +277,27 @@ def fileVerdict (rev nl : Bool) (lines : List Bytes) (rawMax : Nat) (startsNL : 
 def handleFile (ts : List String) (obs : String) : String × Bool × String :=
   match ts with
   | dir :: eol :: tnl :: runs =>
-    match parseRuns runs with
-    | none => ("bad-case", false, "unparsable case")
-    | some lens0 =>
+    match parseRuns runs, parseEol eol with
+    | some lens0, some (crlf, p) =>
       let rev := dir == "rev"
-      let crlf := eol == "crlf"
       let nl := tnl == "nl"
       -- an unterminated empty last line is no line
       let lens := if !nl && lens0.getLast? == some 0 then lens0.dropLast else lens0
       let nl := nl || (lens.length < lens0.length)
-      let lines := (List.range lens.length).zip lens |>.map (fun (i, n) => lineContent i n)
-      let term : Bytes := if crlf then [FileScan.CR, FileScan.NL] else [FileScan.NL]
-      let n := lines.length
-      let f : Bytes := ((List.range n).zip lines).foldr
-        (fun (i, l) acc => l ++ (if i + 1 < n || nl then term else []) ++ acc) []
-      let rawMax := ((List.range n).zip lens).foldl
-        (fun m (i, len) => max m (len + (if crlf && (i + 1 < n || nl) then 1 else 0))) 0
+      let n := lens.length
+      -- the raw lines by construction: content, then the '\r' of a CRLF terminator if the line is terminated
+      let raws := (List.range n).zip lens |>.map (fun (i, len) =>
+        lineContentCR p i len ++ (if crlf && (i + 1 < n || nl) then [FileScan.CR] else []))
+      -- the file's lines: at most one '\r' before the terminator (or before the end of the file) does not belong to the line
+      let lines := raws.map FileScan.dropCR
+      let f : Bytes := ((List.range n).zip raws).foldr
+        (fun (i, l) acc => l ++ (if i + 1 < n || nl then [FileScan.NL] else []) ++ acc) []
+      let rawMax := raws.foldl (fun m l => max m l.length) 0
       let startsNL := match f with | b :: _ => b == FileScan.NL | [] => false
       let m := runModel rev f
       let (ok, why) := fileVerdict rev (nl || n == 0) lines rawMax startsNL obs m
       (m, ok, why)
+    | _, _ => ("bad-case", false, "unparsable case")
   | _ => ("bad-case", false, "unparsable case")
 
 def handleRaw (dir hex : String) (obs : String) : String × Bool × String :=
